@@ -89,3 +89,68 @@ pub open spec fn unvisited_same_lower(m: Map<String, Vec<DnsRecordIntf>>, m0: Ma
 }
 // a host name with the same lower-cased spelling as h is in the set
 pub open spec fn reported_host(rd: Set<String>, h: Seq<char>) -> bool { exists|r: String| #[trigger] rd.contains(r) && lower(r@) == lower(h) }
+// ---- "nothing is reported without cause" (refresh_due_srv_txt) ----
+// every reported (instance, type) pair has a cause: a record of that type that was due and unexpired on entry
+#[verifier::opaque]
+pub open spec fn cause_ok(rd: Map<String, Vec<RRType>>, s0: Map<String, Vec<DnsRecordIntf>>, t0: Map<String, Vec<DnsRecordIntf>>, now: u64) -> bool {
+    forall|kk: String, tt: RRType| rd.contains_key(kk) && #[trigger] rd[kk]@.contains(tt) ==>
+        (tt == RRType::SRV && due_some(list_in(s0, kk@), now)) || (tt == RRType::TXT && due_some(list_in(t0, kk@), now))
+}
+// every reported instance is one of the first n listed ones
+#[verifier::opaque]
+pub open spec fn from_insts(rd: Map<String, Vec<RRType>>, insts: Seq<&str>, n: int) -> bool {
+    forall|kk: String| #[trigger] rd.contains_key(kk) ==> exists|j: int| 0 <= j < n && (#[trigger] insts[j])@ == kk@
+}
+pub proof fn lemma_cause_push(pre: Map<String, Vec<RRType>>, post: Map<String, Vec<RRType>>, k: String, t: RRType, s0: Map<String, Vec<DnsRecordIntf>>, t0: Map<String, Vec<DnsRecordIntf>>, now: u64, insts: Seq<&str>, n: int)
+    requires
+        post.dom() == pre.dom().insert(k),
+        forall|j: String| j != k && pre.contains_key(j) ==> #[trigger] post[j] == pre[j],
+        post[k]@ == (if pre.contains_key(k) { pre[k]@ } else { Seq::<RRType>::empty() }).push(t),
+        cause_ok(pre, s0, t0, now), from_insts(pre, insts, n + 1),
+        (t == RRType::SRV && due_some(list_in(s0, k@), now)) || (t == RRType::TXT && due_some(list_in(t0, k@), now)),
+        0 <= n < insts.len(), insts[n]@ == k@,
+    ensures cause_ok(post, s0, t0, now), from_insts(post, insts, n + 1),
+{
+    reveal(cause_ok); reveal(from_insts);
+    assert forall|kk: String, tt: RRType| post.contains_key(kk) && #[trigger] post[kk]@.contains(tt) implies
+        (tt == RRType::SRV && due_some(list_in(s0, kk@), now)) || (tt == RRType::TXT && due_some(list_in(t0, kk@), now)) by {
+        if kk != k {
+            assert(pre.contains_key(kk));
+            assert(post[kk] == pre[kk]);
+        } else {
+            let base = if pre.contains_key(k) { pre[k]@ } else { Seq::<RRType>::empty() };
+            let w = choose|w: int| 0 <= w < post[k]@.len() && post[k]@[w] == tt;
+            if w < base.len() { assert(base[w] == tt); assert(pre.contains_key(k) && pre[k]@.contains(tt)); } else { assert(tt == t); }
+        }
+    }
+    assert forall|kk: String| #[trigger] post.contains_key(kk) implies exists|j: int| 0 <= j < n + 1 && (#[trigger] insts[j])@ == kk@ by {
+        if kk != k {
+            assert(pre.contains_key(kk));
+            let j = choose|j: int| 0 <= j < n + 1 && (#[trigger] insts[j])@ == kk@;
+            assert(insts[j]@ == kk@);
+        } else { assert(insts[n]@ == kk@); }
+    }
+}
+pub proof fn lemma_from_insts_mono(rd: Map<String, Vec<RRType>>, insts: Seq<&str>, n: int)
+    requires from_insts(rd, insts, n),
+    ensures from_insts(rd, insts, n + 1),
+{
+    reveal(from_insts);
+    assert forall|kk: String| #[trigger] rd.contains_key(kk) implies exists|j: int| 0 <= j < n + 1 && (#[trigger] insts[j])@ == kk@ by {
+        let j = choose|j: int| 0 <= j < n && (#[trigger] insts[j])@ == kk@;
+        assert(insts[j]@ == kk@);
+    }
+}
+// a record that is due and unexpired after the walk was due and unexpired on entry (only marks of such records move)
+pub proof fn lemma_due_now_was_due(cur: Map<String, Vec<DnsRecordIntf>>, m0: Map<String, Vec<DnsRecordIntf>>, x: Seq<char>, now: u64)
+    requires marks_only_map(cur, m0, now), m_has(cur, x), some_due(cur[key_string(x)]@, cur[key_string(x)]@.len() as int, now),
+    ensures due_some(list_in(m0, x), now),
+{
+    reveal(marks_only_map);
+    let k = key_string(x);
+    assert(cur.contains_key(k) && m0.contains_key(k));
+    let i = choose|i: int| 0 <= i < cur[k]@.len() && due_and_live((#[trigger] cur[k]@[i]).record.rec(), now);
+    assert(marks_only(m0[k]@[i], cur[k]@[i], now));
+    assert(due_and_live(m0[k]@[i].record.rec(), now));
+    assert(list_in(m0, x)[i] == m0[k]@[i]);
+}
